@@ -108,8 +108,13 @@ def facts_dir(config="vc", log=None):
     d = os.path.join(CACHE, "%s-%s" % (h, config))
     marker = os.path.join(d, "_complete.json")
     if os.path.exists(marker):
+        try:
+            os.utime(d, None)          # least-recently-used pruning
+        except OSError:
+            pass
         return d
-    lock = open(os.path.join(CACHE, ".lock"), "w")
+    # one lock per (tree, configuration): different trees are extracted concurrently
+    lock = open(os.path.join(CACHE, ".lock-%s-%s" % (h, config)), "w")
     fcntl.flock(lock, fcntl.LOCK_EX)
     try:
         if os.path.exists(marker):
@@ -164,8 +169,8 @@ def facts_dir(config="vc", log=None):
         lock.close()
 
 
-def prune(keep=8):
-    ds = [os.path.join(CACHE, x) for x in os.listdir(CACHE) if os.path.isdir(os.path.join(CACHE, x))]
+def prune(keep=40):
+    ds = [os.path.join(CACHE, x) for x in os.listdir(CACHE) if os.path.isdir(os.path.join(CACHE, x)) and not x.endswith('.partial')]
     ds.sort(key=lambda p: os.path.getmtime(p), reverse=True)
     for p in ds[keep:]:
         shutil.rmtree(p, ignore_errors=True)
